@@ -20,4 +20,5 @@ REGISTRY = {
     'C19': e1props.c19,
     'C15': e2props.c15,
     'C02': e2props.c02,
+    'C11': e2props.c11,
 }
